@@ -18,10 +18,11 @@ Verdict(e) ==
        THEN "FAIL:same_process_repetition_differs:" \o SigT(e)
   ELSE IF \E r1, r2 \in DOMAIN e.runs : e.runs[r1].first # e.runs[r2].first
        THEN "FAIL:differs_between_interpreter_configurations:" \o SigT(e)
-  ELSE IF \E r \in DOMAIN e.runs : ~e.runs[r].draws_ok THEN "FAIL:draw_outside_contract_or_unstable:" \o SigT(e)
   ELSE "OK"
 
-Drift(e) == FALSE
+\* the draws themselves (inside each primitive's contract, the same in both runs): the property
+\* speaks of the values only
+Drift(e) == \E r \in DOMAIN e.runs : ~e.runs[r].draws_ok
 
 TraceNext == TraceStep(Verdict, Drift)
 
